@@ -12,6 +12,8 @@ python3 - <<'PY'
 import sys, os
 sys.path.insert(0, 'checklib')
 import framework as F
+from props import REGEN_EXTRA
+F.REGEN.update(REGEN_EXTRA)
 ctx = F.Ctx('setup', 'quick', 1)
 ok = True
 for name, f in F.REGEN.items():
